@@ -440,6 +440,7 @@ type ContractDB struct {
 }
 
 type Lemma struct {
+	Pkg      string
 	Name     string
 	Params   []string
 	Requires []Clause
@@ -559,7 +560,7 @@ func (db *ContractDB) loadFile(path, pkgPrefix string) {
 				}
 				cur.Props[w] = true
 			}
-			if kind == "extern" || cur.Props["trusted"] || strings.HasPrefix(key, "fieldfunc:") {
+			if kind == "extern" || cur.Props["trusted"] || strings.HasPrefix(key, "fieldfunc:") || strings.HasPrefix(key, "functype:") {
 				cur.Trusted = true
 			}
 			if _, dup := db.Funcs[key]; dup {
@@ -582,7 +583,7 @@ func (db *ContractDB) loadFile(path, pkgPrefix string) {
 					}
 				}
 			}
-			curLemma = &Lemma{Name: name, Params: params, Where: where}
+			curLemma = &Lemma{Name: name, Params: params, Where: where, Pkg: pkgPrefix}
 			db.Lemmas = append(db.Lemmas, curLemma)
 			cur = nil
 			curLoop = nil
@@ -855,6 +856,13 @@ func splitTop(s string) []string {
 // "NewPacket" -> "tds.NewPacket"; interface "BytesChannel.Bytes" -> "iface:tds.BytesChannel.Bytes".
 // Names containing a '/' or already qualified are left alone.
 func canonFuncKey(name, pkg, kind string) string {
+	if strings.HasPrefix(name, "functype:") {
+		n := strings.TrimPrefix(name, "functype:")
+		if !strings.Contains(n, ".") {
+			n = pkg + "." + n
+		}
+		return "functype:" + n
+	}
 	if strings.HasPrefix(name, "fieldfunc:") {
 		n := strings.TrimPrefix(name, "fieldfunc:")
 		if strings.Count(n, ".") == 1 {
